@@ -68,6 +68,10 @@ M = [
  ('C09-m3', 'C09', CORE + 'validator/cedar_schema/to_json_schema.rs', '        resource_types: resource_types\n            .map(|node| node.node)\n            .ok_or_else(|| ToJsonSchemaError::no_resource(&name, name_loc.cloned()))?,\n        principal_types: principal_types\n            .map(|node| node.node)', '        resource_types: principal_types.clone()\n            .map(|node| node.node)\n            .ok_or_else(|| ToJsonSchemaError::no_resource(&name, name_loc.cloned()))?,\n        principal_types: principal_types\n            .map(|node| node.node)'),
  ('C09-m4', 'C09', CORE + 'validator/cedar_schema/to_json_schema.rs', '        Type::Set(t) => json_schema::TypeVariant::Set {\n            element: Box::new(cedar_type_to_json_type(*t)),\n        },', '        Type::Set(t) => return cedar_type_to_json_type(*t),'),
  ('C09-m5', 'C09', CORE + 'validator/cedar_schema/to_json_schema.rs', '        context: context.map(|c| c.node).unwrap_or_default(),', '        context: context.filter(|_| false).map(|c| c.node).unwrap_or_default(),'),
+ ('C10-m10', 'C10', CORE + 'entities/json/value.rs', '                            self.val_into_restricted_expr(element, Some(element_ty), ctx)', '                            self.val_into_restricted_expr(element, None, ctx)'),
+ ('C10-m11', 'C10', CORE + 'entities/json/value.rs', '                                None if expected_attr_ty.is_required() => Some(Err(', '                                None if expected_attr_ty.is_required() && false => Some(Err('),
+ ('C10-m12', 'C10', CORE + 'entities/json/value.rs', '                    if !open_attrs {\n                        // we\'ve now checked', '                    if *open_attrs {\n                        // we\'ve now checked'),
+ ('C10-m13', 'C10', CORE + 'entities/json/value.rs', 'match self.val_into_restricted_expr(actual_attr, Some(expected_attr_ty.schema_type()), ctx) {', 'match self.val_into_restricted_expr(actual_attr, None, ctx) {'),
  ('C17-m1', 'C17', CORE + 'validator/entity_manifest.rs', '            if matches!(op, BinaryOp::In) {', '            if false && matches!(op, BinaryOp::In) {'),
  ('C17-m2', 'C17', CORE + 'validator/entity_manifest.rs', '            .union(entity_manifest_from_expr(then_expr)?)\n            .union(entity_manifest_from_expr(else_expr)?)),', '            .union(entity_manifest_from_expr(then_expr)?)),'),
  ('C17-m3', 'C17', CORE + 'validator/entity_manifest.rs', '        ExprKind::HasAttr { expr, attr } => Ok(entity_manifest_from_expr(expr)?\n            .get_or_has_attr(attr)\n            .empty_paths()),', '        ExprKind::HasAttr { expr, attr: _ } => Ok(entity_manifest_from_expr(expr)?\n            .empty_paths()),'),
